@@ -25,6 +25,7 @@ void vh_transitions(long n);          /* API calls that are transitions */
 void vh_nontrivial(void);             /* current case is non-trivial by the engine's rule */
 void vh_count(const char *name, long n);   /* free-form extra counters (max 16 names) */
 void vh_violation(const char *site, const char *fmt, ...) __attribute__((format(printf, 2, 3)));
+long vh_violations(void);           /* violations reported so far by this worker */
 void vh_note(const char *fmt, ...) __attribute__((format(printf, 1, 2)));
 int vh_replaying(void);
 void vh_quiet(int q);                 /* suppress violation reporting (redundant re-computations) */               /* --only given */
